@@ -27,16 +27,18 @@ Record hobj := mkHobj { h_rc : N; h_data : list Z }.
 Record arr := mkArr { ar_ew : N; ar_data : list Z }.
 
 (* Machine: stack, global_vals, global_states (= the `mach` of Bvm/Model.v), closures, heap, the upvalue cells,
-   states_stack, arrays *)
+   states_stack, arrays; `x_tasks` is NOT part of Machine: the (time word, closure word) pairs `_mimium_schedule_at` has
+   handed to the scheduler plugin (SimpleScheduler's task queue), oldest first; nothing in the model reads it *)
 Record xmach := mkX { x_core : mach; x_cls : smap clos; x_heap : smap hobj; x_cells : list upval;
-                      x_ss : list key; x_arr : smap arr }.
+                      x_ss : list key; x_arr : smap arr; x_tasks : list (Z * Z) }.
 
-Definition set_core (x : xmach) (m : mach) : xmach := mkX m (x_cls x) (x_heap x) (x_cells x) (x_ss x) (x_arr x).
-Definition set_cls (x : xmach) (c : smap clos) : xmach := mkX (x_core x) c (x_heap x) (x_cells x) (x_ss x) (x_arr x).
-Definition set_heap (x : xmach) (h : smap hobj) : xmach := mkX (x_core x) (x_cls x) h (x_cells x) (x_ss x) (x_arr x).
-Definition set_cells (x : xmach) (c : list upval) : xmach := mkX (x_core x) (x_cls x) (x_heap x) c (x_ss x) (x_arr x).
-Definition set_ss (x : xmach) (s : list key) : xmach := mkX (x_core x) (x_cls x) (x_heap x) (x_cells x) s (x_arr x).
-Definition set_arr (x : xmach) (a : smap arr) : xmach := mkX (x_core x) (x_cls x) (x_heap x) (x_cells x) (x_ss x) a.
+Definition set_core (x : xmach) (m : mach) : xmach := mkX m (x_cls x) (x_heap x) (x_cells x) (x_ss x) (x_arr x) (x_tasks x).
+Definition set_cls (x : xmach) (c : smap clos) : xmach := mkX (x_core x) c (x_heap x) (x_cells x) (x_ss x) (x_arr x) (x_tasks x).
+Definition set_heap (x : xmach) (h : smap hobj) : xmach := mkX (x_core x) (x_cls x) h (x_cells x) (x_ss x) (x_arr x) (x_tasks x).
+Definition set_cells (x : xmach) (c : list upval) : xmach := mkX (x_core x) (x_cls x) (x_heap x) c (x_ss x) (x_arr x) (x_tasks x).
+Definition set_ss (x : xmach) (s : list key) : xmach := mkX (x_core x) (x_cls x) (x_heap x) (x_cells x) s (x_arr x) (x_tasks x).
+Definition set_arr (x : xmach) (a : smap arr) : xmach := mkX (x_core x) (x_cls x) (x_heap x) (x_cells x) (x_ss x) a (x_tasks x).
+Definition set_tasks (x : xmach) (t : list (Z * Z)) : xmach := mkX (x_core x) (x_cls x) (x_heap x) (x_cells x) (x_ss x) (x_arr x) t.
 
 Definition x_stack (x : xmach) : list Z := m_stack (x_core x).
 Definition xset_stack (x : xmach) (s : list Z) : xmach := set_core x (set_stack (x_core x) s).
